@@ -254,8 +254,8 @@ func rulePlayLoop(c *Ctx) {
 	c.site(1)
 	name := fname(fn)
 	V := firstCall(fn, staticOf("op.Instance.Validate"))
-	U := firstCall(fn, staticOf("play.(*midiArgs).update"))
-	W := firstCall(fn, staticOf("play.(*midiArgs).writeWhenUpdated"))
+	U := firstCall(fn, staticOf("play.midiArgs.update"))
+	W := firstCall(fn, staticOf("play.midiArgs.writeWhenUpdated"))
 	R := firstCall(fn, invokeOf("midix.Writer", "Rest"))
 	K := firstCall(fn, staticOf("play.midiArgs.getKey"))
 	A := firstCall(fn, staticOf("play.Key.Apply"))
@@ -595,7 +595,7 @@ func allPathsReturnError(b, join *ssa.BasicBlock) bool {
 
 func ruleOpt(c *Ctx) {
 	// generic Opt methods (analysed on the generic bodies)
-	if fn := c.fn("util", "(*Opt).WhenUpdated"); fn != nil {
+	if fn := c.fn("util", "Opt.WhenUpdated"); fn != nil {
 		c.site(1)
 		name := fname(fn)
 		var fcall ssa.CallInstruction
@@ -634,9 +634,9 @@ func ruleOpt(c *Ctx) {
 		}
 		c.check(problem == "", name, c.pos(fn.Pos()), name, "if updated { updated = false; f(value) }", name+": "+problem)
 	} else {
-		c.missing("util.(*Opt).WhenUpdated")
+		c.missing("util.Opt.WhenUpdated")
 	}
-	for _, m := range []string{"NewOpt", "(*Opt).Update"} {
+	for _, m := range []string{"NewOpt", "Opt.Update"} {
 		fn := c.fn("util", m)
 		if fn == nil {
 			c.missing("util." + m)
@@ -673,16 +673,16 @@ func ruleOpt(c *Ctx) {
 		c.check(good, fname(fn), c.pos(fn.Pos()), fname(fn), "returns the stored value", "Opt.Unwrap no longer returns the stored value")
 	}
 	// midiArgs.update: exhaustive over the pointer fields of op.Instance except Chord
-	up := c.fn("play", "(*midiArgs).update")
+	up := c.fn("play", "midiArgs.update")
 	if up == nil {
-		c.missing("play.(*midiArgs).update")
+		c.missing("play.midiArgs.update")
 	} else {
 		p := c.pkg("op")
 		inst, _ := p.Types.Scope().Lookup("Instance").(*types.TypeName)
 		st := inst.Type().Underlying().(*types.Struct)
 		updates := map[string]string{} // instance field -> cell field
 		for _, ci := range callsIn(up) {
-			if calleeName(ci.Common()) != "util.(*Opt).Update" {
+			if calleeName(ci.Common()) != "util.Opt.Update" {
 				continue
 			}
 			cell, _, ok1 := loadedField(ci.Common().Args[0])
@@ -731,14 +731,14 @@ func ruleOpt(c *Ctx) {
 		}
 	}
 	// writeWhenUpdated wiring
-	ww := c.fn("play", "(*midiArgs).writeWhenUpdated")
+	ww := c.fn("play", "midiArgs.writeWhenUpdated")
 	if ww == nil {
-		c.missing("play.(*midiArgs).writeWhenUpdated")
+		c.missing("play.midiArgs.writeWhenUpdated")
 		return
 	}
 	cellClosure := map[string]*ssa.Function{}
 	for _, ci := range callsIn(ww) {
-		if calleeName(ci.Common()) != "util.(*Opt).WhenUpdated" {
+		if calleeName(ci.Common()) != "util.Opt.WhenUpdated" {
 			continue
 		}
 		cell, _, ok := loadedField(ci.Common().Args[0])
